@@ -40,7 +40,8 @@ def orders(items, thorough):
 
 
 def show_els(v):
-    return [('--' if e.m is True else '') + X.show(e.d) for e in v.els()] if isinstance(v, Vec) else repr(v)
+    # what sits under a mask is not part of the outcome
+    return ['--' if e.m is True else X.show(e.d) for e in v.els()] if isinstance(v, Vec) else repr(v)
 
 
 def run(ck):
@@ -120,25 +121,7 @@ def run(ck):
                                   what=f'{label0} how={how}: the collected outcome for yield order {list(perm)} differs from order {list(base[0])}')
     synthetic_identity(ck, collect)
     synthetic_failed_context(ck, collect)
-    # bare CallResult objects (results of running a Call directly, without a stream) are collected as they are
-    rm = it.module('ioos_qc.results').globals
-    from ..vec import El
-    crs = [it.instantiate(rm['CallResult'], [], dict(package=p, test=tn, function=None,
-                                                     results=Vec.fresh([El(X.num(f), False) for f in fl], kind='ma', dtype='u1')), None)
-           for p, tn, fl in (('qartod', 't', [1, 3]), ('argo', 't', [4, 4]), ('qartod', 'u', [9, 1]))]
-    for how in ('list', 'dict'):
-        try:
-            res = it.call(collect, [list(crs)], dict(how=how), None)
-        except AbsRaise as e:
-            ck.violate('C06.identity', f'collect_results_{how}:bare-callresults-raise', f'collect_results({how}) of bare CallResults raises {e.exc}')
-            continue
-        if how == 'list':
-            got = sorted((c.attrs['package'], c.attrs['test'], tuple(show_els(c.attrs['results']))) for c in res)
-        else:
-            got = sorted((p, tn, tuple(show_els(v))) for p, tests in res.items() for tn, v in tests.items())
-        want = sorted([('qartod', 't', ('1', '3')), ('argo', 't', ('4', '4')), ('qartod', 'u', ('9', '1'))])
-        ck.ob('C06.identity', f'bare CallResults how={how}', got == want, key=f'collect_results_{how}:bare-callresults',
-              what=f'collect_results({how}) of three bare CallResults gives {got}')
+    # (bare CallResult items - QcConfig.run's shortcut - are not part of the property's statement: not demanded here)
     # a DataFrame whose row labels are a permutation of the positions: rows must land by label
     permuted = Table(5, missing={'a': {2}}, index_labels=[3, 1, 4, 0, 2])
     for lname, contexts in layouts(thorough)[:3]:
